@@ -17,7 +17,7 @@ from numba_scfg.core.datastructures.byte_flow import ByteFlow
 from numba_scfg.rendering.rendering import ByteFlowRenderer, SCFGRenderer
 
 from vpbt import bytecode_model as bm, dotparse, gen_graphs as gg, graph_checks as G, models as M, sweep
-from vpbt.core import Collector
+from vpbt.core import Collector, library_raised
 
 PID = "C17"
 RULE = (
@@ -28,18 +28,6 @@ RULE = (
     "region whose header is itself a region. Distinct = hash of (input, payload)."
 )
 ASSUME = ["only the DOT source is judged (no viewer / PDF)", "ByteFlow cases are limited to functions for which ByteFlow.from_bytecode and restructuring complete (their failures belong to C09/C02)"]
-
-
-def mk_trees_old(g):
-    trees = {}
-    for i, (name, ss) in enumerate(g.items()):
-        stmts = [ast.parse(f"v{i} = e({i}, 'q')").body[0]]
-        if len(ss) == 2:
-            stmts.append(ast.parse(f"d({i}) < v{i}").body[0].value)
-        elif len(ss) == 0:
-            stmts.append(ast.parse(f"return v{i}").body[0])
-        trees[name] = stmts
-    return trees
 
 
 def check_drawing(scfg, source, renderer, bcmap=None):
@@ -125,10 +113,15 @@ STAGES = ("none", "closed", "loop", "branch")
 
 
 def _build(g, stage, payload):
-    trees = mk_trees(g) if payload == "ast" else None
-    scfg = M.mk_scfg(g, payload, trees)
+    """-> scfg or None when a stage driver of the library raised (C02's business)"""
+    scfg = M.mk_scfg(g, payload)
     if stage != "none":
-        M.apply_stage(scfg, stage)
+        try:
+            M.apply_stage(scfg, stage)
+        except Exception as e:
+            if not library_raised(e):
+                raise
+            return None
     return scfg
 
 
@@ -143,9 +136,8 @@ def _eval(col, intg, g, origin):
     payload = ("plain", "bytecode", "ast")[len(g) % 3]
     nt = False
     for stage in STAGES:
-        try:
-            scfg = _build(g, stage, payload)
-        except Exception:
+        scfg = _build(g, stage, payload)
+        if scfg is None:
             col.count("not_evaluated_stage_raised")
             continue
         col.count("drawings")
@@ -164,7 +156,9 @@ def _eval_byteflow(col, label, code):
             flow = ByteFlow.from_bytecode(code)
             if stage != "none":
                 M.apply_stage(flow.scfg, stage)
-        except Exception:
+        except Exception as e:
+            if not library_raised(e):
+                raise
             col.count("byteflow_not_evaluated")
             continue
         col.count("drawings")
@@ -215,9 +209,8 @@ def replay(inp):
                 return [(s, f["msg"]) for s, f in col.failures.items()]
         return []
     g = gg.graph_from_json(inp["graph"])
-    try:
-        scfg = _build(g, inp["stage"], inp["payload"])
-    except Exception:
+    scfg = _build(g, inp["stage"], inp["payload"])
+    if scfg is None:
         return []
     try:
         check_drawing(scfg, _render_scfg(scfg), "scfg")
